@@ -9,9 +9,16 @@
                                    set equal to the one it had in its source file;
   * `blocks_in_order`              the output's blocks are, in input order, the non-empty blocks read
                                    before an input became unreadable, and nothing else.
+  Over `Model.ReadBlock` (the concrete block: what "preserves every block and record" means for one merged block):
+  * `merged_block_same_records`    a block read from an input (ANY well-formed file, any writer), re-written by the tool's
+                                   `writer.write_block(block)` under its new parameters index and read from the merged file, is the
+                                   same block object – tables, items, times, counts, statistics – and yields the same records; the
+                                   new index `offset + old index` addresses, in the concatenated preamble, the set with the block's
+                                   tick rate (`remap_rate`); an absent index is set 0 (`absent_index_is_zero`).
   cdns-itemcount is decided on the implementation against the independent Lean parse.
 -/
 import CdnsVerif.Model.Merge
+import CdnsVerif.Proofs.ReadBlock
 
 namespace CdnsVerif.Props.C18
 open CdnsVerif.Model.Merge
@@ -154,6 +161,59 @@ theorem mismatch_contributes_nothing (fs : Fs) (names : List String) (name : Str
       simp only at e
       subst e
       rw [h] at hfind; cases hfind
+
+
+/-! ### one merged block, concretely -/
+
+open CdnsVerif.Model.ReadBlock CdnsVerif.Model.Builder CdnsVerif.Model.Schema in
+/-- the sets of a later input are appended to the output preamble: index `i` of the input becomes `offset + i` and names a set
+    with the same tick rate -/
+theorem remap_rate (r0 r : List Nat) (i t : Nat) (h : rateFor r (some i) = .ok t) :
+    rateFor (r0 ++ r) (some (r0.length + i)) = .ok t := by
+  cases r with
+  | nil => simp [rateFor] at h
+  | cons x xs =>
+    have hi : (x :: xs)[i]? = some t := by
+      simp only [rateFor] at h
+      cases hg : (x :: xs)[i]? with
+      | none => rw [hg] at h; cases h
+      | some y => rw [hg] at h; simp only [Except.ok.injEq] at h; rw [h]
+    have hne : r0 ++ x :: xs ≠ [] := by simp
+    cases hcat : r0 ++ x :: xs with
+    | nil => exact absurd hcat hne
+    | cons y ys =>
+      have : (y :: ys)[r0.length + i]? = some t := by
+        rw [← hcat, List.getElem?_append_right (by omega)]
+        simpa using hi
+      simp only [rateFor, this]
+
+open CdnsVerif.Model.ReadBlock in
+/-- RFC 8618: a block without block-parameters-index uses set 0 (what `get_block_parameters_index()` returns for it) -/
+theorem absent_index_is_zero (r : List Nat) : rateFor r none = rateFor r (some 0) := by
+  cases r with
+  | nil => rfl
+  | cons x xs => rfl
+
+open CdnsVerif.Model.ReadBlock in
+theorem records_readBackOf (b : CdnsVerif.Model.Builder.Blk) : records (readBackOf b) = records b := rfl
+
+open CdnsVerif.Model.ReadBlock CdnsVerif.Model.Builder CdnsVerif.Model.Schema in
+/-- **A merged block is the block that was read.**  `rates` are the tick rates of the input's parameter sets, `r0` those already
+    in the output preamble when the input's sets were appended (empty for the first input).  The block the tool writes –
+    `toVal` of the block object read, with index `r0.length + old index` – is read from the merged file as the same block object
+    and yields the same records or the same exception class.  (Preconditions of the property: tick rate ≥ 1 and an earliest
+    time inside the representable range.) -/
+theorem merged_block_same_records (rates r0 : List Nat) (v : Val) (rb : RdBlk) (hread : ofVal rates v = .ok rb)
+    (hr : 1 ≤ rb.tps) (he : C17.InRange rb.blk.earliest rb.tps) :
+    ∃ rb', ofVal (r0 ++ rates) (toVal rb.blk (some (r0.length + rb.pi.getD 0)) rb.tps) = .ok rb' ∧
+      rb'.tps = rb.tps ∧ rb'.blk = readBackOf rb.blk ∧ records rb'.blk = records rb.blk := by
+  have hrate0 : rateFor rates (some (rb.pi.getD 0)) = .ok rb.tps := by
+    have := (ofVal_facts rates v rb hread).2.2.2
+    cases hp : rb.pi with
+    | none => rw [hp, absent_index_is_zero] at this; simpa using this
+    | some i => rw [hp] at this; simpa using this
+  have := reread_of_read_block rates (r0 ++ rates) v rb hread (some (r0.length + rb.pi.getD 0)) hr he (remap_rate r0 rates _ _ hrate0)
+  exact ⟨_, this, rfl, rfl, records_readBackOf rb.blk⟩
 
 /-! Non-vacuity: three inputs, the second with another version, the third truncated after one block. -/
 def demoFs : Fs := fun n =>
